@@ -561,12 +561,14 @@ func (ev *evaluator) quant(x *EQuant) Val {
 	c := ev.c()
 	n := ev
 	var decl []string
+	var bound []string
 	for _, b := range x.Vars {
 		t := ev.resolveType(b.Type)
 		qcounter++
 		a := atom(fmt.Sprintf("%s!q%d", sanitize(b.Name), qcounter), c.sortOf(t))
 		n = n.bind(b.Name, Val{t: a, typ: t})
 		decl = append(decl, fmt.Sprintf("(%s %s)", a.op, a.sort))
+		bound = append(bound, a.op)
 	}
 	body := n.evalBool(x.Body)
 	q := "exists"
@@ -576,7 +578,127 @@ func (ev *evaluator) quant(x *EQuant) Val {
 	if isTrue(body) || isFalse(body) {
 		return Val{t: body, typ: types.Typ[types.Bool]}
 	}
+	body = withTriggers(body, bound)
 	return Val{t: app(q+" ("+strings.Join(decl, " ")+")", "Bool", body), typ: types.Typ[types.Bool]}
+}
+
+// withTriggers annotates a quantifier body with explicit patterns when every bound variable
+// occurs as a direct argument of an uninterpreted application (ix, opaque/spec/seq functions,
+// bitof/setbit, apply): arithmetic-free triggers make instantiation predictable.
+func withTriggers(body *T, bound []string) *T {
+	isBound := map[string]bool{}
+	for _, b := range bound {
+		isBound[b] = true
+	}
+	cands := map[string][]*T{} // var -> candidate trigger terms
+	seen := map[string]bool{}
+	var walk func(t *T, underQ map[string]bool)
+	walk = func(t *T, inner map[string]bool) {
+		if len(t.args) == 0 {
+			return
+		}
+		// do not descend with inner-bound variables as triggers for the outer quantifier
+		if strings.HasPrefix(t.op, "forall (") || strings.HasPrefix(t.op, "exists (") || strings.HasPrefix(t.op, "lambda (") {
+			in2 := map[string]bool{}
+			for k := range inner {
+				in2[k] = true
+			}
+			for _, f := range strings.Fields(strings.NewReplacer("(", " ", ")", " ").Replace(t.op)) {
+				if strings.Contains(f, "!") {
+					in2[f] = true
+				}
+			}
+			for _, a := range t.args {
+				walk(a, in2)
+			}
+			return
+		}
+		if t.op == "!" {
+			walk(t.args[0], inner)
+			return
+		}
+		if triggerHead(t.op) {
+			// collect bound vars that are direct arguments; reject if the term mentions inner-bound vars
+			atoms := map[string]bool{}
+			collectAtoms(t, atoms)
+			ok := true
+			for a := range atoms {
+				if inner[a] {
+					ok = false
+				}
+			}
+			if ok {
+				for _, a := range t.args {
+					if len(a.args) == 0 && isBound[a.op] {
+						key := a.op + "|" + t.String()
+						if !seen[key] {
+							seen[key] = true
+							cands[a.op] = append(cands[a.op], t)
+						}
+					}
+				}
+			}
+		}
+		for _, a := range t.args {
+			walk(a, inner)
+		}
+	}
+	walk(body, map[string]bool{})
+	for _, b := range bound {
+		if len(cands[b]) == 0 {
+			return body
+		}
+	}
+	// one pattern per choice of the first variable's candidates (up to 3), covering the other variables with their first candidate
+	var pats []string
+	first := cands[bound[0]]
+	if len(first) > 3 {
+		first = first[:3]
+	}
+	for _, f0 := range first {
+		terms := []*T{f0}
+		covered := map[string]bool{}
+		at := map[string]bool{}
+		collectAtoms(f0, at)
+		for _, b := range bound {
+			if at[b] {
+				covered[b] = true
+			}
+		}
+		for _, b := range bound[1:] {
+			if covered[b] {
+				continue
+			}
+			t := cands[b][0]
+			terms = append(terms, t)
+			at2 := map[string]bool{}
+			collectAtoms(t, at2)
+			for _, bb := range bound {
+				if at2[bb] {
+					covered[bb] = true
+				}
+			}
+		}
+		var ss []string
+		for _, t := range terms {
+			ss = append(ss, t.String())
+		}
+		pats = append(pats, ":pattern ("+strings.Join(ss, " ")+")")
+	}
+	return &T{op: "!", args: []*T{body, atom(strings.Join(pats, " "), "Attr")}, sort: "Bool"}
+}
+
+func triggerHead(op string) bool {
+	switch op {
+	case "ix", "bitof", "setbit", "slen", "sbyte":
+		return true
+	}
+	for _, p := range []string{"op_", "sf_", "sq_", "applyfn_"} {
+		if strings.HasPrefix(op, p) {
+			return true
+		}
+	}
+	return false
 }
 
 func (ev *evaluator) call(x *ECall) Val {
